@@ -499,7 +499,9 @@ where
     ) where
         R_: Registry,
     {
-        if
+        // The removed component is kept alive until every remaining column has been updated, so
+        // that a panicking `Drop` implementation can not leave the columns with differing lengths.
+        let _removed = if
         // SAFETY: `identifier_iter` is guaranteed by the safety contract of this method to
         // return a value for every component within the registry.
         unsafe { identifier_iter.next().unwrap_unchecked() } {
@@ -519,14 +521,17 @@ where
                     )
                 },
             );
-            v.swap_remove(index);
+            let removed = v.swap_remove(index);
 
             components =
                 // SAFETY: `components` is guaranteed to have the same number of values as there
                 // set bits in `identifier_iter`. Since a bit must have been set to enter this
                 // block, there must be at least one component column.
                 unsafe { components.get_unchecked(1..) };
-        }
+            Some(removed)
+        } else {
+            None
+        };
         // SAFETY: At this point, one bit of `identifier_iter` has been consumed. There are two
         // possibilities here: either the bit was set or it was not.
         //
